@@ -415,13 +415,28 @@ func vfC18clean(c *hx.Ctx) {
 	hx.NoCache = true
 	var cfgs []vfNamedCfg
 	for _, mode := range []string{"session", "update"} {
-		for _, nd := range [][4]int{{0, 100, 0, 0}, {0, 40, 2, 1}, {0, 20, 2, 0}, {1, 10, 2, 1}, {1, 20, 0, 0}, {1, 10, 1, 0}, {0, 10, 0, 1},
-			{1, 11, 2, 1}, {1, 12, 2, 0}, {1, 13, 1, 1}, {0, 11, 2, 1}, {0, 13, 0, 0}, {0, 33, 2, 1}, {1, 17, 2, 1}} {
+		nds := [][4]int{{0, 100, 0, 0}, {0, 40, 2, 1}, {0, 20, 2, 0}, {1, 10, 2, 1}, {1, 20, 0, 0}, {1, 10, 1, 0}, {0, 10, 0, 1},
+			{1, 11, 2, 1}, {1, 12, 2, 0}, {1, 13, 1, 1}, {0, 11, 2, 1}, {0, 13, 0, 0}, {0, 33, 2, 1}, {1, 17, 2, 1}}
+		Ds := []uint32{0, 1, 2, 3, 5, 7, 10, 14, 20, 40}
+		if !c.Quick() {
+			// thorough: every interval 10..27 in no-delay mode, a spread in normal mode, and every one-way delay that satisfies the precondition
+			for iv := 10; iv <= 27; iv++ {
+				nds = append(nds, [4]int{1, iv, iv % 3, iv % 2})
+			}
+			for _, iv := range []int{15, 25, 50, 66, 75, 90, 97} {
+				nds = append(nds, [4]int{0, iv, iv % 3, iv % 2})
+			}
+			Ds = Ds[:0]
+			for D := uint32(0); D < 50; D++ {
+				Ds = append(Ds, D)
+			}
+		}
+		for _, nd := range nds {
 			minrto := uint32(IKCP_RTO_MIN)
 			if nd[0] != 0 {
 				minrto = IKCP_RTO_NDL
 			}
-			for _, D := range []uint32{0, 1, 2, 3, 5, 7, 10, 14, 20, 40} {
+			for _, D := range Ds {
 				// the peer acknowledges on its own flush interval (same setting at both ends)
 				if 2*D+uint32(nd[1]) >= minrto {
 					continue
@@ -460,11 +475,18 @@ func vfC18clean(c *hx.Ctx) {
 			if iv[0] != 0 {
 				minrto = IKCP_RTO_NDL
 			}
+			offs := []uint32{0, 3, 7}
+			if !c.Quick() {
+				offs = offs[:0]
+				for o := uint32(0); o < uint32(iv[2]); o += 2 {
+					offs = append(offs, o)
+				}
+			}
 			for _, D := range []uint32{1, 2, 4, 5} {
 				if 2*D+uint32(max(iv[1], iv[2])) >= minrto {
 					continue
 				}
-				for _, off := range []uint32{0, 3, 7} {
+				for _, off := range offs {
 					for _, gaps := range [][2]uint32{{7, 5}, {5, 9}, {13, 4}} {
 						for variant := 0; variant < 4; variant++ {
 							for _, nc := range []int{0, 1} {
